@@ -6,15 +6,15 @@ def main():
     ctx = Ctx("C19", "exploration")
     ctx.rule = ("JsonSer.tla models tag resolution as a 7-stage machine with one failure transition per stage; TLC enumerates the 24 "
                 "tag classes (every JSON type, falsy values, missing/leading/trailing/double dots, unknown and broken modules, "
-                "attributes that are functions / modules / type variables / plain classes / serialisable / registered classes) "
+                "attributes that are functions / modules / type variables / plain classes / subclasses of registered types / serialisable / registered classes) "
                 "with the documented outcome of each; every class is instantiated by 2-4 concrete tags sent through real JSON "
                 "text into from_json. Non-trivial = a tag class that passes the first stage; distinct by concrete tag.")
     ctx.run_tlc("JsonSer", "JsonSer_mc_tag.cfg", expect="ok")
-    for sw in ("NoTypeCheck", "ImportOnlyNotFound", "NoClassCheck"):
+    for sw in ("NoTypeCheck", "ImportOnlyNotFound", "NoClassCheck", "MroRegistryLookup"):
         ctx.run_tlc("JsonSer", f"JsonSer_sw_{sw}.cfg", expect="violation")
     classes = [j for j in ctx.run_tlc("JsonSer", "JsonSer_gen_tag.cfg", expect="ok").json_lines() if isinstance(j, dict) and "tag" in j]
-    if len(classes) != 24:
-        raise MachineryError(f"expected 24 tag classes, got {len(classes)}")
+    if len(classes) != 25:
+        raise MachineryError(f"expected 25 tag classes, got {len(classes)}")
     results = replay("jsonser", [{"part": "tag", "tag": c["tag"]} for c in classes], shards=4)
     for c, r in zip(classes, results):
         for t in r["tags"]:
